@@ -439,6 +439,17 @@ fn string_from_utf8''')]},
                 "        let mut merged_methods = new_obj_string_value_map();\n        for (&k, &v) in &methods {\n            merged_methods.insert(k, v);\n        }\n        if let Some(parent) = superclass {\n            for (&k, &v) in &parent.methods {\n                merged_methods.insert(k, v);\n            }\n        }")]},
     {'name': 'K2 Inherit no longer copies the superclass methods', 'prop': 'C07', 'expect': 'K2 / inherit_impl',
      'edits': [(VM, "        for (name, method) in &superclass.methods {\n            self.working_class_def\n                .as_mut()\n                .unwrap()\n                .class\n                .methods\n                .insert(*name, *method);\n        }\n", "")]},
+    # ---- C19 ----------------------------------------------------------------------------------------
+    {'name': 'D1 numbers printed with six decimals', 'prop': 'C19', 'expect': 'D1 / Number arm uses the same format template',
+     'edits': [(VAL, '                    write!(f, "{}", underlying)\n                }\n            }\n            Value::Boolean', '                    write!(f, "{:.6}", underlying)\n                }\n            }\n            Value::Boolean')]},
+    {'name': 'D1 numbers printed in exponent form', 'prop': 'C19', 'expect': 'D1 / Number arm formats one f64 through Display',
+     'edits': [(VAL, '                    write!(f, "{}", underlying)\n                }\n            }\n            Value::Boolean', '                    write!(f, "{:e}", underlying)\n                }\n            }\n            Value::Boolean')]},
+    {'name': 'D1 negative zero loses its special case guard', 'prop': 'C19', 'expect': 'D1 / negative zero prints',
+     'edits': [(VAL, "                if *underlying == 0.0 && underlying.is_sign_negative() {", "                if underlying.is_sign_negative() && *underlying > -1.0 {")]},
+    {'name': 'D2 literals parsed as f32 first', 'prop': 'C19', 'expect': 'D2 / number parses with str::parse::<f64>',
+     'edits': [(COMP, "        let value = match s.previous.source.as_str().parse::<f64>() {\n            Ok(n) => n,", "        let value = match s.previous.source.as_str().parse::<f32>() {\n            Ok(n) => n as f64,")]},
+    {'name': 'D3 lexer absorbs a trailing dot', 'prop': 'C19', 'expect': 'D3 / Scanner::number advance',
+     'edits': [(SCAN, '        if self.peek() == "." && is_digit(self.peek_next()) {\n            self.advance();', '        if self.peek() == "." && self.peek_next() != "." {\n            self.advance();')]},
 ]
 
 BENIGN = [
